@@ -286,3 +286,38 @@ Proof.
     destruct (Hi ei Hei) as [K|K]; [rewrite Hni in K; contradiction|].
     eapply row_meets_use; [exact K|rewrite Hni; exact Ho|assumption|assumption].
 Qed.
+
+(* ------------------------------------------------------------------ big-integer literals *)
+
+Lemma bitlen_bound v m : v <> 0 -> bitlen v <= m -> 0 <= m -> Z.abs v < 2 ^ m.
+Proof.
+  intros Hv Hl Hm. unfold bitlen in Hl. destruct (Z.eqb_spec v 0) as [->|_]; [congruence|].
+  assert (Ha : 0 < Z.abs v) by lia.
+  destruct (Z.log2_spec (Z.abs v) Ha) as [_ Hu].
+  eapply Z.lt_le_trans; [exact Hu|]. apply Z.pow_le_mono_r; lia.
+Qed.
+
+Definition bint_params_ok (p : bint_params) : bool :=
+  bp_shape_ok p && (0 <=? bp_maxlen p) && (bp_maxlen p <=? 31) && ((bp_fmt_bits p =? 32) || (bp_fmt_bits p =? 64)).
+
+(* every big-integer constant, immediate or not, is written as a Java expression with exactly its value *)
+Lemma emit_bint_exact p : bint_params_ok p = true ->
+  forall small v, denote_blit (emit_bint p small v) = Some v.
+Proof.
+  unfold bint_params_ok. intros Hp small v.
+  apply andb_true_iff in Hp as [Hp Hf]. apply andb_true_iff in Hp as [Hp Hm]. apply andb_true_iff in Hp as [_ H0].
+  apply Z.leb_le in Hm. apply Z.leb_le in H0.
+  unfold emit_bint. destruct (Z.eqb_spec v 0) as [->|Hv]; [reflexivity|].
+  destruct (small && (bitlen v <=? bp_maxlen p)) eqn:E; [|reflexivity].
+  apply andb_true_iff in E as [_ El]. apply Z.leb_le in El.
+  destruct (Z.eqb_spec v 1) as [->|H1]; [reflexivity|].
+  pose proof (bitlen_bound v (bp_maxlen p) Hv El H0) as Hb.
+  assert (Hp31 : 2 ^ bp_maxlen p <= 2 ^ 31) by (apply Z.pow_le_mono_r; lia).
+  change (2 ^ 31) with 2147483648 in Hp31.
+  assert (Hr : -2147483648 < v < 2147483648) by lia.
+  assert (Hw : fmt_int (bp_fmt_bits p) v = v).
+  { unfold fmt_int. apply orb_true_iff in Hf as [Hf|Hf]; apply Z.eqb_eq in Hf; rewrite Hf; cbn [Z.eqb Pos.eqb];
+      unfold wrap; lia. }
+  cbn [denote_blit]. rewrite Hw. unfold int32b.
+  replace ((-2147483648 <=? v) && (v <=? 2147483647)) with true by lia. reflexivity.
+Qed.
